@@ -74,6 +74,7 @@ class Translator:
         self.post = []
         self.var_types = {}
         self.helpers = set()
+        self.opaque_fields = set()
         self.instantiate = []
         self.rec_decls = {}
         self.global_arrays = {}
@@ -541,7 +542,12 @@ class Translator:
         if ck in ('LValueToRValue', 'NoOp', 'FunctionToPointerDecay', 'ArrayToPointerDecay',
                   'ConstructorConversion', 'UserDefinedConversion', 'DerivedToBase', 'UncheckedDerivedToBase'):
             if ck in ('DerivedToBase', 'UncheckedDerivedToBase'):
-                self.abort(n, 'base class conversion')
+                try:
+                    src_ct = self.tm.tname(i[-1]['type']).rstrip(' *').rstrip()
+                except ExtractError:
+                    src_ct = None
+                if src_ct != 'c_opaque':
+                    self.abort(n, 'base class conversion')
             return x
         if ck in ('IntegralCast', 'IntegralToFloating', 'FloatingCast', 'FloatingToIntegral',
                   'IntegralToBoolean', 'FloatingToBoolean', 'BooleanToSignedIntegral'):
@@ -696,6 +702,19 @@ class Translator:
             return self.mk_struct(ct, ['_%d' % j for j in range(len(args))], [self.e(a) for a in args])
         if kind and kind[0] == 'tup' and not args:
             return '((%s){ 0 })' % ct
+        if kind and kind[0] == 'vec' and len(args) == 1 and self.tm.tname(args[0]['type']) in SCALAR_C:
+            # std::vector<T>(n): n value-initialised elements
+            self.tmpn = getattr(self, 'tmpn', 0) + 1
+            t = 'verif_v%d' % self.tmpn
+            return '({ %s %s; %s.size = %s; __CPROVER_assume(__CPROVER_forall { unsigned long verif_q; %s.data[verif_q] == 0 }); %s; })' % (
+                ct, t, t, self.e(args[0]), t, t)
+        if kind and kind[0] == 'vec' and len(args) == 2 and self.tm.tname(args[0]['type']) in SCALAR_C and \
+                self.tm.tname(args[1]['type']).rstrip(' *').rstrip() == kind[1]:
+            # std::vector<T>(n, value)
+            self.tmpn = getattr(self, 'tmpn', 0) + 1
+            t = 'verif_v%d' % self.tmpn
+            return '({ %s %s; %s.size = %s; __typeof__(%s.data[0]) verif_fill = %s; __CPROVER_assume(__CPROVER_forall { unsigned long verif_q; %s.data[verif_q] == verif_fill }); %s; })' % (
+                ct, t, t, self.e(args[0]), t, self.e(args[1]), t, t)
         if kind and kind[0] == 'opt' and not args:
             return '((%s){ 0 })' % ct
         if kind and kind[0] == 'opt' and len(args) == 1:
@@ -941,6 +960,11 @@ class Translator:
             if name in ('isdigit', 'isspace', 'isalpha', 'isalnum', 'toupper', 'tolower') and len(args) == 1:
                 self.cur.stubs.add('<cctype> %s in the "C" locale' % name)
                 return 'V_%s(%s)' % (name.upper(), A(0))
+            if name in ('strtof', 'strtod', 'atof', 'atoi', 'strtol') and args:
+                a0 = self.e(args[0])
+                if a0.startswith('VEC_DATA('):
+                    self.cur.stubs.add('%s: reads a NUL-terminated string (library precondition)' % name)
+                    return 'V_STRTOX(%s, %s)' % (name, a0[9:-1])
             if name in ('isfinite', 'isnan', 'isinf'):
                 self.cur.stubs.add('v_' + name)
                 return 'v_%s(%s)' % (name, A(0))
@@ -961,6 +985,13 @@ class Translator:
         if operator:
             fam, _ = self.obj_family(args[0])
             if name == 'operator[]':
+                try:
+                    c0t = self.tm.tname(args[0]['type']).rstrip(' *').rstrip()
+                except ExtractError:
+                    c0t = None
+                if c0t == 'c_opaque' or A(0).startswith('OPQ_ELEM('):
+                    # element of an unmodelled container: itself unmodelled
+                    return 'OPQ_ELEM(%s, %s)' % (A(0), A(1))
                 if fam in ('std::array', 'array'):
                     kd = self.tm.kinds.get(self.tm.tname(args[0]['type']).rstrip(' *').rstrip())
                     return '%sa[ARR_IDX(%s, %d)]' % (self._arrow(A(0)), A(1), kd[2] if kd else 0)
@@ -1004,6 +1035,12 @@ class Translator:
         if obj is not None:
             onode, o, ptr = obj
             fam, _ = self.obj_family(onode)
+            try:
+                oct0 = self.tm.tname(onode['type']).rstrip(' *').rstrip()
+            except ExtractError:
+                oct0 = None
+            if o.startswith('OPQ_ELEM(') or oct0 == 'c_opaque':
+                fam = '<opaque>'
             if fam in ('std::array', 'array'):
                 if name == 'size':
                     kind = self.tm.kinds[self.tm.tname(onode['type']).rstrip(' *')]
@@ -1025,6 +1062,8 @@ class Translator:
                     return 'VEC_PUSH(%s, %s)' % (o, A(0))
                 if name == 'clear':
                     return 'VEC_CLEAR(%s)' % o
+                if name in ('data', 'c_str') and not args:
+                    return 'VEC_DATA(%s)' % o
                 if name == 'substr' and fam in ('std::basic_string', 'std::basic_string_view'):
                     real_args = [a for a in args if a.get('kind') != 'CXXDefaultArgExpr']
                     self.helpers.add('v_substr')
@@ -1041,6 +1080,21 @@ class Translator:
             if key in self.lib:
                 self.cur.stubs.add(self.lib[key])
                 return '%s(%s)' % (self.lib[key], ', '.join([ptr or o] + [self.lib_arg(a) for a in args]))
+            try:
+                oct_ = self.tm.tname(onode['type']).rstrip(' *').rstrip()
+            except ExtractError:
+                oct_ = None
+            if o.startswith('OPQ_ELEM('):
+                oct_ = 'c_opaque'
+            if oct_ == 'c_opaque' and name == 'read' and len(args) == 2:
+                a0 = self.e(args[0])
+                if a0.startswith('VEC_DATA('):
+                    self.cur.stubs.add('istream::read(buf, n): the first n bytes of buf become arbitrary file content (or stay indeterminate on a short read)')
+                    v = a0[9:-1]
+                    return 'SRC_READ_VEC(%s, %s)' % (v, self.e(args[1]))
+            if oct_ == 'c_opaque' and name in ('push_back', 'emplace_back', 'reserve', 'clear', 'resize', 'insert', 'seekg', 'seekp', 'close', 'open'):
+                self.cur.dropped.append(('effect of %s() on an unmodelled (opaque) object; its arguments are still evaluated' % name, self._line(n)))
+                return '((void)0%s)' % ''.join(', (void)(%s)' % self.e(a) for a in args if a.get('kind') != 'CXXDefaultArgExpr')
             # opaque pure getter of a class outside the extraction set
             q = (full or {}).get('_qual', fam + '::' + str(name))
             if any(rx.search(q) for rx in self.opaque_ok):
@@ -1968,7 +2022,18 @@ class Translator:
         fields = []
         for k in rec.get('inner', []):
             if k.get('kind') == 'FieldDecl':
-                fields.append((self.tm.tname(k['type']), k['name']))
+                try:
+                    ft = self.tm.tname(k['type'])
+                except ExtractError:
+                    # a member of a type the extractor does not model: kept as an opaque placeholder; any USE of it
+                    # in extracted code still aborts the extraction (or is an explicitly modelled opaque operation)
+                    ft = 'c_opaque'
+                    self.opaque_fields.add('%s::%s' % (cname, k['name']))
+                kd = self.tm.kinds.get(ft)
+                if kd and kd[0] == 'vec' and self.tm.kinds.get(kd[1], ('',))[0] == 'vec':
+                    ft = 'c_opaque'      # vector of vectors: nested unbounded arrays are not supported by CBMC
+                    self.opaque_fields.add('%s::%s' % (cname, k['name']))
+                fields.append((ft, k['name']))
         self.tm.add_record(cname, fields)
         self.rec_decls['struct ' + cname] = rec
         return 'struct ' + cname
@@ -2100,7 +2165,8 @@ class Translator:
         """a REGION of a large function as a function of its own: `loop K from decl:<var> to assign:<member>`.
         The region's free variables become parameters (by address if written or non-scalar); the listed
         locals declared inside the region become out-parameters."""
-        m = re.fullmatch(r'from (?:decl|block):(\w+)(?:#(\d+))? to assign:(\w+)', spec.strip())
+        m = re.fullmatch(r'from (?:decl|block):(\w+)(?:#(\d+))? to (?:assign|call):(\w+)', spec.strip())
+        to_call = ' to call:' in spec
         from_block_start = spec.strip().startswith('from block:')
         if not m:
             raise ExtractError('bad slice description: ' + spec)
@@ -2123,7 +2189,13 @@ class Translator:
             x = st
             while x.get('kind') in ('ExprWithCleanups',) and x.get('inner'):
                 x = x['inner'][0]
-            if (x.get('kind') == 'BinaryOperator' and x.get('opcode') == '=') or x.get('kind') == 'CompoundAssignOperator':
+            if to_call:
+                for y in walk(x):
+                    if y.get('kind') in ('CallExpr', 'CXXMemberCallExpr'):
+                        rf, _ = self.callee_decl(y['inner'][0])
+                        if rf and rf.get('name') == m1:
+                            i1 = i
+            elif (x.get('kind') == 'BinaryOperator' and x.get('opcode') == '=') or x.get('kind') == 'CompoundAssignOperator':
                 lhs = x['inner'][0]
                 if (lhs.get('kind') == 'MemberExpr' and lhs.get('name') == m1) or \
                         (lhs.get('kind') == 'DeclRefExpr' and lhs['referencedDecl'].get('name') == m1):
@@ -2162,10 +2234,11 @@ class Translator:
                     declared[x['id']] = x
         fn_locals = {x['id']: x for x in walk(d) if x.get('kind') in ('VarDecl', 'ParmVarDecl')}
         free, written = [], set()
+        uses_this = False
         for st in region:
             for x in walk(st):
                 if x.get('kind') == 'CXXThisExpr':
-                    raise ExtractError('%s: slice uses `this`' % cname)
+                    uses_this = True
                 if x.get('kind') == 'DeclRefExpr':
                     rid = x['referencedDecl']['id']
                     if rid in fn_locals and rid not in declared and rid not in free:
@@ -2181,6 +2254,14 @@ class Translator:
                         if y.get('kind') == 'DeclRefExpr':
                             written.add(y['referencedDecl']['id'])
                             break
+        if uses_this:
+            self.cur_record = self.class_of(d)
+            st_ = self.method_self_type(d)
+            if st_ is None:
+                raise ExtractError('%s: slice uses `this` of an unknown class' % cname)
+            f.self_type = st_
+            f.params.append((st_ + ' *', 'self', True))
+            self.var_types['self'] = st_ + ' *'
         const_defs, const_params = [], []
         for rid in free:
             v = fn_locals[rid]
@@ -2221,6 +2302,10 @@ class Translator:
             self.s(st)
         self.ind -= 1
         self.out('}')
+        if uses_this and not re.search(r'\bself\b', '\n'.join(self.lines)):
+            # `this` only reached unmodelled (opaque) members whose effects are not translated: no object parameter
+            f.params = [p for p in f.params if p[1] != 'self']
+            f.self_type = None
         f.text = f.proto() + '\n' + '\n'.join(self.lines) + '\n'
         self.cur = None
         return f
